@@ -3,7 +3,7 @@
    accepts).  Symbolic cryptography: [verify] succeeds iff the signer is one of the server's
    keys, the header algorithm is derived from those keys, and the bytes are unaltered. *)
 From Coq Require Import String ZArith NArith List Bool.
-From KM Require Import Base.Bytes Model.Tokens Model.OIDC Proofs.Tokens Proofs.OIDC Proofs.OIDCChannels.
+From KM Require Import Base.Bytes Model.Tokens Model.OIDC Proofs.Tokens Proofs.OIDC Proofs.OIDCChannels Proofs.TokensPeer.
 Import ListNotations.
 Open Scope Z_scope.
 
@@ -171,6 +171,66 @@ Theorem c04_body_subject_reading_refuted :
   token_endpoint idp3 (1010 * NS) two_channel_req = Refuse 401 /\
   ch_is_release (token_endpoint idp3 (1010 * NS) (with_form (with_basic two_channel_req (Some (b "clientA", b "secretA"))) (b "clientC") (b "secretC"))) = true.
 Proof. exact body_subject_reading_refuted. Qed.
+
+(* ---------------------------------------------------------------- bound to the server that issued them *)
+
+(* The issuer / audience clause of c04_accept_sound, read for tokens that name ANOTHER server: a
+   consumer of session cookies, CLI tokens or storage records refuses every token whose iss, or whose
+   first audience, is not this server's own identity - whoever signed it, the key of a trusted peer
+   instance (keymaster_public_keys_filename) included. *)
+Theorem c04_other_server_token_refused : forall i now c t,
+  must_name_server c -> names_server_b (srv i) (t_claims t) = false -> accepts i now c t = false.
+Proof. exact other_server_token_refused. Qed.
+
+(* The peer dimension.  [pe] is any other instance (its own identity, signer and keys; nothing is
+   assumed about whether this server trusts its signing key): whatever it mints - session cookie, CLI
+   web-auth token, storage record, access token, ID token, with ALL their parameters free, at any
+   time - is refused by EVERY consumer of this server, at any time.  Authorization codes are the one
+   exception the statement leaves: they are not required to name the server and the token endpoint
+   does not read their iss. *)
+Theorem c04_peer_artefact_refused : forall i pe t_issue now a c,
+  s_issuer pe <> s_issuer (srv i) -> kind_of a <> KCode -> accepts i now c (emit pe t_issue a) = false.
+Proof. exact peer_artefact_refused. Qed.
+
+(* The identity is a function of (host_identity, http_address) alone (Tokens.issuer_of = jwt.go
+   idpGetIssuer, compared on every loaded configuration by the correspondence): two instances on the
+   same listen address with different host identities never honour each other's artefacts,
+   whatever else their configurations share. *)
+Theorem c04_bound_to_issuing_server : forall i pe host peer_host addr t_issue now a c,
+  s_issuer (srv i) = issuer_of host addr -> s_issuer pe = issuer_of peer_host addr -> host <> peer_host ->
+  kind_of a <> KCode -> accepts i now c (emit pe t_issue a) = false.
+Proof. exact bound_to_issuing_server. Qed.
+
+(* Non-vacuity: member A verifies what member B signs, B honours its own cookie / CLI token / storage
+   record, A refuses all three, and A does honour a cookie signed by B's key that names A - the
+   refusal rests on the issuer / audience comparison alone. *)
+Theorem c04_peers_trust_keys_not_tokens :
+  let now := 1010 * NS in
+  let cookieB := emit memberB (1000 * NS) (ASession (b "alice") 2 57600) in
+  let cliB := emit memberB (1000 * NS) (ACli (b "alice") 600) in
+  let recB := emit memberB (1000 * NS) (AStorage (b "alice") 1 (b "h") 5000) in
+  trusts_signer memberA memberB = true /\ verify memberA cookieB = true /\
+  accepts idpB now (CSession 2) cookieB = true /\ accepts idpB now CCliVerify cliB = true /\
+  accepts idpB now (CStorage PPrimary (b "alice") 5000 None) recB = true /\
+  accepts idpA now (CSession 2) cookieB = false /\ accepts idpA now CCliVerify cliB = false /\
+  accepts idpA now (CStorage PPrimary (b "alice") 5000 None) recB = false /\
+  accepts idpA now (CSession 2)
+    {| t_signer := 1%N; t_alg := 1%N; t_tampered := false;
+       t_claims := t_claims (emit memberA (1000 * NS) (ASession (b "alice") 2 57600)) |} = true.
+Proof. exact peers_trust_keys_not_tokens. Qed.
+
+(* The other reading refuted: an identity taken from a value the members of a cluster share (instead
+   of the host identity) makes each member honour the cookies, CLI tokens and storage records of
+   the others. *)
+Theorem c04_shared_identity_refuted :
+  let now := 1010 * NS in
+  let name := b "https://sso.example" in
+  let A := {| srv := shared_identity memberA name; clients := [] |} in
+  let B := shared_identity memberB name in
+  accepts A now (CSession 2) (emit B (1000 * NS) (ASession (b "alice") 2 57600)) = true /\
+  accepts A now CCliVerify (emit B (1000 * NS) (ACli (b "alice") 600)) = true /\
+  accepts A now (CStorage PCache (b "alice") 5000 None) (emit B (1000 * NS) (AStorage (b "alice") 1 (b "h") 5000)) = true.
+Proof. exact shared_identity_refuted. Qed.
 
 (* ---------------------------------------------------------------- non-vacuity *)
 Definition idp0 : idp :=
